@@ -202,6 +202,16 @@ func checkC17(p *Prog, rp *Report) {
 	// lines far longer than any reader buffer
 	longChange := "  * Closes: " + strings.Repeat("#123456, ", 700) + "\n"
 	scripts = append(scripts, []string{H1, B, longChange, C2, B, T1}, []string{H1, B, C1, B, T1, B, H2, B, longChange, B, T2})
+	// headers and trailers with their punctuation out of place: whatever Parse makes of them, it returns
+	oddLines := []string{
+		"hello) (1.0-1) unstable; urgency=low\n", "hello )1.0-1( unstable; urgency=low\n", "hello (1.0-1 unstable; urgency=low\n", "hello 1.0-1) unstable; urgency=low\n",
+		"hello ((1.0-1)) unstable; urgency=low\n", "hello () unstable; urgency=low\n", "hello (1.0-1)unstable; urgency=low\n", "(1.0-1) unstable; urgency=low\n",
+		"hello (1.0-1) unstable\n", "hello (1.0-1) unstable;\n", "hello (1.0-1) ; urgency=low\n", "hello (1.0-1) unstable; urgency\n", "hello (1.0-1) unstable; =low\n",
+		";\n", "(\n", ")\n", ")(\n", "hello (1.0-1) unstable; urgency=low; more=1\n", "hello (1.0-1) unstable; urgency=low,\n", "hello (1.0-1) unstable; a=b=c\n",
+		" -- <a@b>  Mon, 02 Jan 2006 15:04:05 -0700\n", " -- A  Mon, 02 Jan 2006 15:04:05 -0700\n", " -- A <a@b  Mon, 02 Jan 2006 15:04:05 -0700\n", " -- A a@b>  Mon, 02 Jan 2006 15:04:05 -0700\n",
+		" -- A >a@b<  Mon, 02 Jan 2006 15:04:05 -0700\n", " -- A <a@b>>  Mon, 02 Jan 2006 15:04:05 -0700\n", " -- A <a@b>  \n", " -- A <a@b>\n", " -- \n", " --  \n", " -- A <a@b>  Mon, 02 Jan 2006 15:04:05\n",
+	}
+	nCompared := 0
 	one := []string{H1, B, C1, C2, B, T1}
 	two := []string{H2, B, C1, B, T2, B, H1, B, C1, C2, B, T1}
 	for _, base := range [][]string{one, two} {
@@ -229,9 +239,17 @@ func checkC17(p *Prog, rp *Report) {
 		nf[len(nf)-1] = strings.TrimSuffix(nf[len(nf)-1], "\n")
 		scripts = append(scripts, nf)
 	}
+	nCompared = len(scripts)
+	for _, l := range oddLines {
+		if strings.HasPrefix(l, " --") {
+			scripts = append(scripts, []string{H1, B, C1, B, l}, []string{H1, B, C1, B, l, B, H2, B, C1, B, T2}, []string{l})
+		} else {
+			scripts = append(scripts, []string{l, B, C1, B, T1}, []string{H1, B, C1, B, T1, B, l, B, C1, B, T2}, []string{l})
+		}
+	}
 	n := 0
 	mismatch, undec := "", ""
-	for _, sc := range scripts {
+	for si, sc := range scripts {
 		n++
 		m := readerMachine(p, sc)
 		m.Hooks["bufio.NewReader"] = func(m *Machine, st *State, call *ssa.CallCommon, args []Val) ([]Val, bool) {
@@ -254,12 +272,25 @@ func checkC17(p *Prog, rp *Report) {
 		st := initState(m, "changelog", "version")
 		st.push(fn, []Val{IfaceV{T: types.NewPointer(types.Typ[types.Int]), V: OpaqueV{"the-input"}}}, nil)
 		out := m.Run(st)
+		if len(out) == 1 && out[0].Status == stPanic {
+			if mismatch == "" {
+				mismatch = fmt.Sprintf("input %q makes Parse panic: %s", strings.Join(sc, ""), out[0].Msg)
+			}
+			continue
+		}
 		if len(out) != 1 || out[0].Status != stRet {
 			undec = fmt.Sprintf("script %q: %s", sc, retDesc(out))
 			break
 		}
 		tv := st.Ret.(*TupleV)
 		_, errNil := tv.E[1].(nilV)
+		if si >= nCompared {
+			// out-of-place punctuation: the format says nothing beyond "all entries or an error"
+			if elems, _, ok := m.sliceElems(st, tv.E[0]); ok && !errNil && len(elems) != 0 && mismatch == "" {
+				mismatch = fmt.Sprintf("input %q: %d entries are returned together with the error", strings.Join(sc, ""), len(elems))
+			}
+			continue
+		}
 		want, wantErr := refParseAll(sc)
 		input := strings.Join(sc, "")
 		if errNil != (wantErr == "") {
